@@ -14,6 +14,7 @@ def progNamed : String → Option (List Cmd)
   | "resetns" => some resetProgNoSeed
   | "step" => some stepProg
   | "stepclean" => some stepProgClean
+  | "resetcond" => some resetProgCond
   | _ => none
 
 def showVals (vs : List Val) : String := ",".intercalate (vs.map toString)
@@ -27,6 +28,12 @@ def stepD (st : St) : List String → St × String
       let put (p : Proc) : Proc := { p with inst := fun j => if j = i then initInst cfg nmne io rng sched else p.inst j }
       ({ st with main := put st.main, solo := put st.solo }, "ok")
     | _, _, _, _, _, _ => (st, "bad-op")
+  | ["new", i, cfg, nmne, io, rng, sched, var] =>
+    match i.toNat?, cfg.toInt?, nmne.toInt?, io.toInt?, rng.toInt?, sched.toInt?, var.toInt? with
+    | some i, some cfg, some nmne, some io, some rng, some sched, some var =>
+      let put (p : Proc) : Proc := { p with inst := fun j => if j = i then initInst cfg nmne io rng sched var else p.inst j }
+      ({ st with main := put st.main, solo := put st.solo }, "ok")
+    | _, _, _, _, _, _, _ => (st, "bad-op")
   | ["ev", i, kind, arg] =>
     match i.toNat?, progNamed kind, arg.toInt? with
     | some i, some prog, some a =>
